@@ -30,8 +30,8 @@ ASSUMPTIONS = [
 
 def plan(tier):
     if tier == "quick":
-        return dict(shards=16, examples=48, time_budget_s=900, min_nontrivial=12, shrink_cap_s=150)
-    return dict(shards=16, examples=640, time_budget_s=3500, min_nontrivial=200)
+        return dict(shards=16, examples=48, time_budget_s=900, min_nontrivial=6, shrink_cap_s=150)
+    return dict(shards=16, examples=640, time_budget_s=3500, min_nontrivial=80)
 
 
 def strategy(tier, shard):
